@@ -1,8 +1,17 @@
 import AFV.Driver.Proto
+import AFV.Model.Fuse
 namespace AFV.Driver.C04
-open Lean AFV.Proto
+open Lean AFV.Proto AFV.Fuse
 
-/-- Handler for property C04 requests (stub: not implemented yet). -/
-def handle (_req : Json) : Json := err "unimplemented"
+def handle (req : Json) : Json :=
+  match (field? req "op").bind getStr? with
+  | some "sumOfMax" =>
+    match (field? req "groups").bind getArr? with
+    | some arr =>
+      match arr.toList.mapM intList? with
+      | some gs => ofInt (sumOfMax gs)
+      | none => err "malformed"
+    | none => err "malformed"
+  | _ => err "bad-op"
 
 end AFV.Driver.C04
